@@ -139,6 +139,39 @@ ENSURES((a->ptr.data.ptr == NULL && a->len == 0 && a->off == 0) ||
          (vf_u128)__CPROVER_OBJECT_SIZE(RA(a)) >= (vf_u128)sizeof(vf_ra_t) + (vf_u128)nm * sz))
 ;
 
+/* C14: reset lets go of exactly one owner count: the underlying allocation is released exactly when
+ * this was the last array object referring to it (descriptor at hard 1 -> 0, bookkeeping block at
+ * soft 1 -> 0) and stays alive otherwise; the object is left empty */
+#ifdef VF_G_reset
+static inline void cstl_array_reset(cstl_array_t * const a)
+#ifdef VF_A_EMPTY
+REQUIRES(A_FRESH(a) && A_EMPTY(a))
+ASSIGNS(a->off, a->len, a->ptr.data.ptr, a->ptr.data.self)
+ENSURES(GP_OK(&a->ptr.data) && A_EMPTY(a) && a->off == 0)
+#else
+REQUIRES(A_VIEW(a))
+ASSIGNS(a->off, a->len, a->ptr.data.ptr, a->ptr.data.self, __CPROVER_object_whole(a->ptr.data.ptr))
+FREES(a->ptr.data.ptr, BLK(a)->up.gp.ptr)
+ENSURES(GP_OK(&a->ptr.data) && A_EMPTY(a) && a->off == 0)
+ENSURES(__CPROVER_was_freed(OLD(BLK(a)->up.gp.ptr)) == (vf_w_hard == 1))
+ENSURES(__CPROVER_was_freed(OLD(a->ptr.data.ptr)) == (vf_w_soft == 1))
+ENSURES(vf_w_soft > 1 ==> (HARD((vf_blk_t *)OLD(a->ptr.data.ptr)) == vf_w_hard - 1 && SOFT((vf_blk_t *)OLD(a->ptr.data.ptr)) == vf_w_soft - 1))
+#endif
+;
+/* data: the start of the underlying buffer (not of the view), NULL for an empty object */
+const void * cstl_array_data_const(const cstl_array_t * const a)
+#ifdef VF_A_EMPTY
+REQUIRES(A_FRESH(a) && A_EMPTY(a))
+ASSIGNS(vf_aborted)
+ENSURES(RESULT == NULL)
+#else
+REQUIRES(A_VIEW(a))
+ASSIGNS(vf_aborted)
+ENSURES(RESULT == RA(a)->buf && RESULT != NULL)
+#endif
+;
+#endif
+
 /* C14: release hands an external buffer back only to its sole user, else NULL and no change */
 void cstl_array_release(cstl_array_t * const a, void ** const buf)
 REQUIRES(A_VIEW(a) && FRESH(buf, sizeof(void *)))
@@ -234,6 +267,10 @@ void h_slice(void)
     cstl_array_slice(a, beg, end, s);
     VF_END();
 }
+#ifdef VF_G_reset
+void h_reset(void) { cstl_array_t * a; A_WIT_IN(); cstl_array_reset(a); VF_END(); }
+void h_data(void) { cstl_array_t * a; A_WIT_IN(); cstl_array_data_const(a); VF_END(); }
+#endif
 void h_unslice(void) { cstl_array_t * a, * s; A_WIT_IN(); cstl_array_unslice(s, a); VF_END(); }
 void h_alloc(void)
 {
